@@ -550,12 +550,14 @@ impl TypeChecker {
 
             S::Unreachable(_) => Ok(None),
 
-            S::Blob { .. } | S::Enum { .. } | S::ExternalDefinition { .. } => {
-                unreachable!(
-                    "Illegal inner statement at {:?}! Parser should have caught this",
-                    span
-                )
-            }
+            // The parser accepts these anywhere, and name resolution lets them through
+            // when a global with the same name exists.
+            S::Blob { .. } | S::Enum { .. } | S::ExternalDefinition { .. } => err_type_error!(
+                self,
+                span,
+                TypeError::Exotic,
+                "Blobs, enums and externals can only be declared at the top level"
+            ),
         }
     }
 
